@@ -31,7 +31,7 @@ from baize.exceptions import HTTPException
 from engine import report
 from engine.forksym import Engine, SInt, Unsupported, conc, cur, term_of
 from engine.shims import Shims, int_shim, max_shim
-from engine.symseq import SBytes, SSeq, SStr, _items_of
+from engine.symseq import SBytes, SSeq, SStr, _items_of, in_set
 from engine.vloop import drive
 
 from . import mp_common as MP
@@ -182,6 +182,8 @@ def aget(req, name):
 def run_job(job) -> report.JobResult:
     if job.get("kind") == "recipes":
         return job_recipes(job)
+    if job.get("kind") == "delegate":
+        return job_delegate(job)
     res = report.JobResult.new(job["name"])
     twin = job.get("twin", False)
     iface, entry, n = job["iface"], job["entry"], job["n"]
@@ -199,6 +201,9 @@ def run_job(job) -> report.JobResult:
             eng.solver.add(c.e < 128)  # case folding of header names is modelled exactly on Latin-1 only
     if entry in ("url-host", "url-query", "referer", "query_params", "url-path"):
         eng.sensitive_chars = URL_SENSITIVE
+    if entry == "multipart-boundary":
+        for c in text.items:
+            eng.solver.add(z3.Or([c.e == k for k in BOUNDARY_CHARS]))
 
     def fn():
         pre, post = job.get("pre", ""), job.get("post", "")
@@ -270,6 +275,20 @@ def run_job(job) -> report.JobResult:
             f = aget(req, "form")
             f.multi_items()
             return "returned"
+        if entry == "multipart-boundary":
+            # the boundary parameter is client text that ends up inside regular expressions: every RFC 2046 bchar that is special
+            # there (plus one ordinary letter), fork-decided per character so that each path compiles a concrete pattern
+            chosen = []
+            for c in text.items:
+                for k in BOUNDARY_CHARS:
+                    if in_set(c, (k,)):
+                        chosen.append(k)
+                        break
+            req = _boundary_request(iface, chosen)
+            f = aget(req, "form")
+            if f.multi_items() != [("a", "v")]:
+                raise Fail("multipart-misparsed", repr(f.multi_items()))
+            return "returned"
         if entry == "multipart-ctype":
             req = make_request(iface, {"content-type": val}, body=[b'--b\r\nContent-Disposition: form-data; name="a"\r\n\r\nv\r\n--b--\r\n'])
             f = aget(req, "form")
@@ -329,6 +348,17 @@ def run_job(job) -> report.JobResult:
     return res
 
 
+# RFC 2046 bchars that mean something in a regular expression or in a header parameter, and one plain letter
+BOUNDARY_CHARS = [ord(c) for c in "()+.?*[]{}|^$\\'-_,/:= q"]
+
+
+def _boundary_request(iface, codes):
+    bnd = "x" + "".join(map(chr, codes)) + "y"
+    quoted = '"' + bnd.replace("\\", "\\\\").replace('"', '\\"') + '"'
+    raw = b"--" + bnd.encode() + b'\r\nContent-Disposition: form-data; name="a"\r\n\r\nv\r\n--' + bnd.encode() + b"--\r\n"
+    return make_request(iface, {"content-type": "multipart/form-data; boundary=" + quoted}, body=[raw])
+
+
 def _arun(req, name):
     import asyncio
 
@@ -385,6 +415,11 @@ def concrete(w) -> Optional[str]:
                 raw = b"--b\r\n" + bytes(w["hpre"]) + body + bytes(w["hpost"]) + b"\r\n\r\nvalue\r\n--b--\r\n"
                 req = make_request(iface, {"content-type": "multipart/form-data; boundary=b"}, body=[raw])
                 (drive(AQ.Request.form.func(req)) if iface == "asgi" else req.form).multi_items()
+            elif entry == "multipart-boundary":
+                f = _boundary_request(iface, w["text"])
+                got = (drive(AQ.Request.form.func(f)) if iface == "asgi" else f.form).multi_items()
+                if got != [("a", "v")]:
+                    return f"multipart-misparsed: {got!r}"
             elif entry == "multipart-ctype":
                 req = make_request(iface, {"content-type": val}, body=[b'--b\r\nContent-Disposition: form-data; name="a"\r\n\r\nv\r\n--b--\r\n'])
                 (drive(AQ.Request.form.func(req)) if iface == "asgi" else req.form).multi_items()
@@ -512,9 +547,51 @@ def job_recipes(job) -> report.JobResult:
     return res
 
 
+# ------------------------------------------------------------------ range handling, routing, static files: through the harnesses that own them
+# The statement also names "range handling, routing and the static-file apps".  Their symbolic harnesses (C03, C08, C07) already classify an
+# exception that is not an HTTP exception as a violation of their own property; here a slice of their jobs is run again and ONLY those
+# "an unrelated exception escapes" verdicts are kept, re-keyed under C12 (all other verdicts belong to the other properties and are dropped).
+DELEGATES = {
+    "range": ("harness.c03", lambda n: n.startswith(("text/bytes=+", "text/all")) and n[-1] in "01234" or n in ("ints/ab", "ints/-b,a-", "tmpl/ab,-b/d2/sep2")),
+    "routing": ("harness.c08", lambda n: n.startswith("route/") and n.split("/")[2] in ("decimal-date", "two-params", "int-str-lit", "any-lit") and n[-1] in "01234"),
+    "static-files": ("harness.c07", lambda n: n.split("/")[-1] in ("free0", "free1", "free2", "free3", "dotdot+2", "longname+2", "1+html")),
+}
+
+
+def delegate_jobs(tier):
+    import importlib
+    out = []
+    for area, (modname, keep) in DELEGATES.items():
+        mod = importlib.import_module(modname)
+        for j in mod.jobs("quick"):
+            if not j.get("twin") and keep(j["name"]):
+                out.append(dict(name=f"{area}/{j['name']}", kind="delegate", area=area, mod=modname, job=j, iface="both", entry=area, n=0, weight=j.get("weight", 1)))
+    return out
+
+
+def job_delegate(job) -> report.JobResult:
+    import importlib
+    import re as _re
+    mod = importlib.import_module(job["mod"])
+    inner = mod.run_job(job["job"])
+    res = report.JobResult.new(job["name"])
+    for k in ("paths", "queries", "solver_s", "validated", "pruned"):
+        res[k] = inner[k]
+    res["exhausted"], res["unsupported"], res["unwind_failures"] = inner["exhausted"], inner["unsupported"], inner["unwind_failures"]
+    for v in inner["violations"]:
+        m = _re.search(r"exception:\s*([A-Za-z_]+)", v["detail"]) or _re.search(r"exception:\s*([A-Za-z_]+)", v["key"])
+        if "exception" not in v["key"] and not v["detail"].startswith(("exception", "unexpected-exception")):
+            continue  # a verdict about the other property's own statement
+        wit = v["witness"] if isinstance(v["witness"], dict) else {"witness": v["witness"]}
+        res.violation(f"C12/{job['area']}/{m.group(1) if m else 'exception'}", dict(wit, delegate=job["mod"]), f"{v['detail']} [found by {job['mod']} job {v['job']}]", v["reproduced"])
+    res.kind("returned" if not res["violations"] else "escaped")
+    res["samples"] = inner["samples"][:1]
+    return res
+
+
 def jobs(tier: str):
     b = META["bounds"][tier]
-    out = [dict(name="recipes/concrete-long-inputs", iface="both", entry="recipes", n=0, kind="recipes")]
+    out = delegate_jobs(tier) + [dict(name="recipes/concrete-long-inputs", iface="both", entry="recipes", n=0, kind="recipes")]
     for iface in ("wsgi", "asgi"):
         for entry, variants in (
             ("content-type", [("", ""), ("text/plain; charset=", ""), ("a/b;", "=\"x")]),
@@ -536,6 +613,8 @@ def jobs(tier: str):
                     if entry == "multipart-ctype" and "charset=" in pre and n > 0:
                         continue  # the charset reaches real codecs: concrete recipes only
                     out.append(dict(name=f"{iface}/{entry}/v{vi}/n{n}", iface=iface, entry=entry, pre=pre, post=post, n=n, weight=6 ** n))
+        for n in (1, 2):
+            out.append(dict(name=f"{iface}/multipart-boundary/n{n}", iface=iface, entry="multipart-boundary", pre="", post="", n=n, weight=30 ** n))
         for entry in ("json", "urlencoded"):
             for ctparam in ("", "; charset=utf-8", "; charset=latin-1", "; charset=nonsense", "; charset=", "; charset=utf-16"):
                 for n in range(0, b["body_bytes"] + 1):
@@ -558,6 +637,18 @@ def jobs(tier: str):
 
 
 def replay(rec) -> int:
+    if isinstance(rec.get("witness"), dict) and rec["witness"].get("delegate"):
+        import importlib
+        return importlib.import_module(rec["witness"]["delegate"]).replay(rec)
+    if isinstance(rec.get("witness"), dict) and "recipe" in rec["witness"]:
+        w = rec["witness"]
+        try:
+            _recipe_requests()[w["recipe"]](w["iface"])
+            print(f"replay C12 recipe {w}: returned")
+            return 0
+        except Exception as ex:  # noqa: BLE001
+            print(f"replay C12 recipe {w}: {type(ex).__name__}: {ex}")
+            return 0 if allowed(ex) else 1
     cp = concrete(rec["witness"])
     print(f"replay C12: {rec['witness']} -> {cp}")
     return 1 if cp else 0
